@@ -375,6 +375,26 @@ static void tgold_group(Group & g, verif::Rng & rng, int ncases)
       }
     }
   }
+  // requests beyond what the single-precision section ratio of the routine (0.61803395, as in the reference) can deliver: one key for
+  // the whole class (a known finding of the pinned tree, see known_findings.txt)
+  for (int i = 0; i < 40; i++) {
+    UPar p;
+    p.kind = 0;
+    p.s = 1;
+    p.sign = 1.0;
+    double a = 0.0, c = 1.0;
+    p.x0 = i == 0 ? 0.3 : 0.05 + 0.9 * rng.uniform();
+    for (double rel : {1e-10, 1e-12}) {
+      double xe, fe;
+      decay0_tgold(a, 0.5, c, unimodal, rel, 1, xe, fe, &p);
+      g.n++;
+      g.distinct.insert(fmt("ultrafine/rel%g", rel));
+      double err = std::fabs(xe - p.x0);
+      if (!(err <= rel))
+        g.fail("tgold|ultrafine|single-precision-section-ratio",
+               fmt("(x-%.6g)^2 on [0,1] with requested uncertainty %g: returned %.17g, %.3g times the requested uncertainty away", p.x0, rel, xe, err / rel));
+    }
+  }
   // boundary extremum: monotone function, extremum at an end; result must be within eps of it
   for (int i = 0; i < ncases / 4 + 1; i++) {
     UPar p{0, 0, 1, 1};
@@ -466,6 +486,7 @@ static void rot_group(Group & g, verif::Rng & rng, int ncases)
     vector3 v[3];
     for (auto & w : v) {
       double sc = std::pow(10.0, -3 + 6 * rng.uniform());
+      if (i % 3 == 0) sc = std::pow(10.0, -30 + 60 * rng.uniform()); // a rotation is linear: the scale of the vector is irrelevant (all bounds are relative)
       w = make_vector3(sc * (-1 + 2 * rng.uniform()), sc * (-1 + 2 * rng.uniform()), sc * (-1 + 2 * rng.uniform()));
     }
     vector3 r[3];
